@@ -61,6 +61,7 @@ def run(ctx):
     ctx.trusted += ["blst aggregate verification", "Allocator::atom", "u64_to_bytes canonical (C11)"]
     ctx.assumptions += ["N: that the signature is valid exactly for that multiset (BLS soundness); equality of verdicts between verifiers (C15)"]
     c05_1(ctx)
+    c05_amount(ctx)
     c05_2(ctx)
     c05_3(ctx)
     c05_4(ctx)
@@ -126,6 +127,12 @@ def c05_1(ctx):
             ctx.sample({"rule": R, "variant": variant, "pieces": [str(x) for x in want_pieces]})
     ctx.floor(R, "AGG_SIG recipes", n, 8)
     # variant <-> opcode bijection is C01.2 (produced variant per opcode row)
+
+
+def c05_amount(ctx):
+    """the `amount` attribute of the signed text is the canonical CLVM encoding of the coin amount (the table of C11.1)"""
+    from . import c11
+    c11.ladder(ctx, CC + "make_aggsig_final_message::u64_to_bytes", "u64_to_bytes", rule="C05.1")
 
 
 def c05_2(ctx):
@@ -267,6 +274,26 @@ def c05_5(ctx):
         ok = len(pair) == 1 and len(h2g) == 1 and len(upd) == 1 and al and \
             _is_local_ref(vb, h2g[0]["args"][0], al[0]) and _is_local_ref(vb, upd[0]["args"][1], al[0])
         ctx.ob(R, "mempool:pairing-and-key", bool(ok), "pairing = hash_to_g2(aug_msg).pair(pk), cache key = sha256(aug_msg) of the same bytes")
+
+        # multiset: every (pk, msg) taken from the iterator yields exactly one pushed pairing — no iteration of the loop
+        # gets back to `next` without passing the push; `pairs` is only ever pushed to; the verifier folds all of `pairs`
+        pl = vb.local_named("pairs")
+        nxt = [bi for bi, n_, t in vb.calls() if U.flat(n_).endswith("Iterator::next") or n_.endswith("::next")]
+        hist = vb.mut_history(pl[0]) if pl else []
+        pushes = [h for h in hist if U.flat(h[1]).endswith("Vec::push")]
+        okm = len(pl) == 1 and len(nxt) == 1 and len(pushes) == 1 and len(hist) == 1
+        if okm:
+            after_next = vb.succ[nxt[0]]
+            okm = vb.in_cycle(pushes[0][0]) and not any(vb.reachable_avoiding(x, [nxt[0]], [pushes[0][0]]) for x in after_next)
+            ver = [t for bi, n_, t in vb.calls() if n_.endswith("aggregate_verify_gt") or "aggregate_verify_gt::<" in n_]
+            okm = okm and len(ver) == 1
+            if okm:
+                it = strip_all(vb.operand_term(ver[0]["args"][1]))
+                its = str(apnf.N(it))
+                okm = "pairs" in its or str(apnf.N(strip_all(vb.local_term(pl[0])))) in its
+                okm = okm and not any(k in its for k in ("skip", "take", "filter", "step_by", "dedup"))
+        ctx.ob(R, "mempool:multiset", bool(okm), "every (pk, msg) pair contributes exactly one pairing (no skipping / deduplication) and the verifier folds all of them",
+               found={"pairs": len(pl), "next": len(nxt), "push": len(pushes), "mutations": [U.flat(h[1]) for h in hist]})
 
         def verdict(t, lab):
             return U.has_call(t, "aggregate_verify_gt") and lab == ("bool", True)
